@@ -132,7 +132,128 @@ let s_macset g obs =
     | _ -> "bad:shape" in
   (model, verdict)
 
+(* ---- C12 / C11: PHY frames ---- *)
+let hex16 v = let h = hex_of_n v in String.make (max 0 (16 - String.length h)) '0' ^ h
+let hex8 v = let h = hex_of_n v in String.make (max 0 (8 - String.length h)) '0' ^ h
+let b01 b = if b then "1" else "0"
+let cmd_str c = Printf.sprintf "%s:%d:%s" (b01 c.c_up) (int_of_n c.c_cid)
+    (String.concat "/" (List.map (fun x -> string_of_int (int_of_n x)) c.c_fields))
+let cmds_str l = "[" ^ String.concat ";" (List.map cmd_str l) ^ "]"
+let frame_str (f : frame) =
+  Printf.sprintf "mt=%d mj=%d addr=%d/%d fc=%s%s%s%s%s/%d fcnt=%d fopts=%s port=%d frm=%s cmds=%s mic=%s jr=%s/%s/%d ja=%s/%d/%d/%d/%d/%d/%d"
+    (int_of_n f.mtype) (int_of_n f.major) (int_of_n f.f_devaddr.nwkid) (int_of_n f.f_devaddr.nwkaddr)
+    (b01 f.fc.adr) (b01 f.fc.adrackreq) (b01 f.fc.ack) (b01 f.fc.fpending) (b01 f.fc.classb) (int_of_n f.fc.foptslen)
+    (int_of_n f.fcnt) (cmds_str f.fopts.cs_cmds) (int_of_n f.fport) (hex_of_bytes f.frm) (cmds_str f.maccmds.cs_cmds) (hex8 f.mic)
+    (hex16 f.jr.jr_appeui) (hex16 f.jr.jr_deveui) (int_of_n f.jr.jr_devnonce)
+    (hex_of_bytes f.ja.ja_appnonce) (int_of_n f.ja.ja_netid) (int_of_n f.ja.ja_devaddr.nwkid) (int_of_n f.ja.ja_devaddr.nwkaddr)
+    (int_of_n f.ja.ja_rx1droffset) (int_of_n f.ja.ja_rx2dr) (int_of_n f.ja.ja_rxdelay)
+let decode_str data spare = show_outcome (fun f -> " " ^ frame_str f) (decode (mk_slice data spare))
+let decode_obs data spare =
+  match decode (mk_slice data spare) with
+  | Ok f -> "ok " ^ frame_str f
+  | Err e -> "err" ^ string_of_int (int_of_n (err_code e))
+  | Panic -> "PANIC"
+
+(* what the specification says the implementation must have reported for these bytes *)
+let field_of obs key =
+  let toks = String.split_on_char ' ' obs in
+  let pre = key ^ "=" in
+  match List.find_opt (fun t -> String.length t >= String.length pre && String.sub t 0 (String.length pre) = pre) toks with
+  | Some t -> String.sub t (String.length pre) (String.length t - String.length pre)
+  | None -> "?"
+let is_suffix s sub =
+  let n = String.length s and m = String.length sub in m <= n && String.sub s (n - m) m = sub
+
+let spec_judge data obs =
+  let accepted = String.length obs >= 3 && String.sub obs 0 3 = "ok " in
+  if obs = "PANIC" then "bad:panic" else
+  match spec_decode data with
+  | None -> if accepted && (let mt = field_of obs "mt" in mt = "2" || mt = "3" || mt = "4" || mt = "5") then "bad:accepted-short" else "ok"
+  | Some g ->
+    let mt = int_of_n g.s_mtype in
+    if int_of_n g.s_major <> 0 || mt = 6 || mt = 7 then (if accepted then "bad:unsupported-accepted" else "ok")
+    else if not (s_is_data g) then "ok"      (* join messages: judged by C04 *)
+    else if not accepted then "ok"           (* the property speaks of accepted frames; acceptance itself is C02 *)
+    else begin
+      let up = s_uplink g in
+      let chk k v = field_of obs k = v in
+      let segs = spec_set (spec_cmds up g.s_fopts) in
+      let exp_fopts = cmds_str (List.filter_map (fun (cid, pl) ->
+          match cmd_payload_dec up cid pl with Some fs -> Some { c_up = up; c_cid = cid; c_fields = fs } | None -> None) segs) in
+      let addr = g.s_addr in
+      let da = devaddr_of_u32 addr in
+      let fcs = Printf.sprintf "%s%s%s%s%s/%d" (b01 (s_adr g)) (b01 (s_adrackreq g)) (b01 (s_ack g)) (b01 (s_fpending g)) (b01 (s_fpending g))
+          (List.length g.s_fopts) in
+      if not (chk "mt" (string_of_int mt)) then "bad:mtype"
+      else if not (chk "mj" "0") then "bad:major"
+      else if not (chk "addr" (Printf.sprintf "%d/%d" (int_of_n da.nwkid) (int_of_n da.nwkaddr))) then "bad:devaddr"
+      else if not (chk "fc" fcs) then "bad:fctrl"
+      else if not (chk "fcnt" (string_of_int (int_of_n g.s_fcnt))) then "bad:fcnt"
+      else if not (chk "fopts" exp_fopts) then "bad:fopts"
+      else if not (chk "mic" (hex8 g.s_mic)) then "bad:mic"
+      else match g.s_port with
+        | None -> if chk "port" "0" && chk "frm" "" then "ok" else "bad:port-absent"
+        | Some p ->
+          if not (chk "port" (string_of_int (int_of_n p))) then "bad:port"
+          else if int_of_n p <> 0 then
+            (if chk "frm" (hex_of_bytes g.s_payload) && chk "cmds" "[]" then "ok" else "bad:payload")
+          else (if is_suffix (hex_of_bytes g.s_payload) (field_of obs "frm") then "ok" else "bad:port0-containment")
+    end
+
+let s_phy g obs =
+  let data = getb g "data" and spare = getb g "spare" in
+  (decode_obs data spare, spec_judge data obs)
+
+let mk_set msg max ops =
+  List.fold_left (fun s o -> match o with `Add c -> fst (set_add s c) | `Remove cid -> set_remove s cid) (new_set msg (z_of_int max)) ops
+
+let s_phyenc g obs =
+  let mt = getn g "mt" in
+  let fcs = g "fc" in
+  let fl i = fcs.[i] = '1' in
+  let p = new_phy mt in
+  let f = { p with major = getn g "mj";
+            f_devaddr = { nwkid = getn g "nwkid"; nwkaddr = getn g "nwkaddr" };
+            fc = { adr = fl 0; adrackreq = fl 1; ack = fl 2; fpending = fl 3; classb = fl 4; foptslen = N0 };
+            fcnt = getn g "fcnt";
+            fopts = mk_set mt (geti g "foptsmax") (parse_set_ops (g "fopts"));
+            fport = getn g "port"; frm = getb g "frm";
+            maccmds = mk_set mt 222 (parse_set_ops (g "cmds"));
+            mic = n_of_hex (g "mic") } in
+  let model = match encode f with
+    | Ok bs -> "ok:" ^ hex_of_bytes bs ^ " " ^ decode_obs bs []
+    | Err e -> "err" ^ string_of_int (int_of_n (err_code e))
+    | Panic -> "PANIC" in
+  (* oracle: the bytes the implementation produced, read by the specification, must give back the fields *)
+  let verdict =
+    if String.length obs >= 3 && String.sub obs 0 3 = "ok:" then begin
+      let sp = String.index obs ' ' in
+      let bytes = bytes_of_hex (String.sub obs 3 (sp - 3)) in
+      let dec = String.sub obs (sp + 1) (String.length obs - sp - 1) in
+      let mti = int_of_n mt in
+      if mti < 2 || mti > 5 then "ok" else
+      match spec_decode bytes with
+      | None -> "bad:enc-not-a-frame"
+      | Some s ->
+        let frm = getb g "frm" in
+        let port = if frm = [] then 0 else geti g "port" in
+        let exp_addr = ((geti g "nwkid" land 0x7f) lsl 25) lor (geti g "nwkaddr" land 0x1FFFFFF) in
+        if int_of_n s.s_mtype <> mti then "bad:enc-mtype"
+        else if int_of_n s.s_major <> (geti g "mj" land 3) then "bad:enc-major"
+        else if geti g "nwkid" < 128 && int_of_n s.s_addr <> exp_addr then "bad:enc-devaddr"
+        else if s_adr s <> fl 0 || s_adrackreq s <> fl 1 || s_ack s <> fl 2 || s_fpending s <> (fl 3 || fl 4) then "bad:enc-fctrl"
+        else if int_of_n s.s_fcnt <> geti g "fcnt" then "bad:enc-fcnt"
+        else if hex8 s.s_mic <> g "mic" then "bad:enc-mic"
+        else if List.length s.s_fopts <> int_of_nat (set_encoded_length f.fopts) then "bad:enc-foptslen"
+        else if frm <> [] && (s.s_port <> Some (n_of_int port) || s.s_payload <> frm) then "bad:enc-payload"
+        else if geti g "mj" = 0 && String.length dec >= 3 && String.sub dec 0 3 <> "ok " then "bad:enc-roundtrip"
+        else "ok"
+    end else "ok" in
+  (model, verdict)
+
 let register_all register =
+  register "phy" s_phy;
+  register "phyenc" s_phyenc;
   register "maccmd" s_maccmd;
   register "macset" s_macset;
   register "aes" s_aes;
